@@ -7,6 +7,12 @@ Loading sessions: the hierarchy is spread over 2-3 *top-level* packages / module
 collection step by step (every load order, one or several loaders sharing the collections, default or no
 extensions, ``visit`` without any loader), with mro()/inherited_members/all_members/resolved_bases/``cls[name]``
 read at random places between the steps, directly or through an alias of the class.
+Statically cyclic hierarchies: every base graph of <= 3 classes with bases among *all* classes (exhaustive), and
+samples of larger hierarchies with extra bases pointing at the class itself / a later class, in one module, over
+the modules of a package (imports, aliases, re-export) and in the loading sessions.  An independent analysis of the
+generated graph says which classes lie on or merely reach a cycle: those must raise ValueError from mro() (nothing
+else, within the step budget), have no inherited members and keep their declared ones; all others keep the CPython
+oracle.
 Oracle: CPython's ``type()`` builds the very same hierarchy; ``__mro__`` and the first class
 in it defining a name are the expected order / definer.  For sessions CPython additionally imports the
 generated files and must agree with ``type()``.  M-CON contract on ``c3linear_merge``.
@@ -25,7 +31,11 @@ ANCHORS = ["c3linear.py"]
 RULE = ("all hierarchies of N classes (N<=5 quick, N<=6 thorough), each class with an ordered list of <=3 distinct "
         "bases among earlier classes, enumerated exhaustively in one module; plus seeded samples of the same "
         "hierarchies spread over 2-3 modules (from-import / aliased import / mod.Class bases) and textual "
-        "inheritance cycles; plus seeded loading sessions: the hierarchy spread over 2-3 top-level packages/modules "
+        "inheritance cycles; plus all base graphs of <=3 classes with <=3 bases among ALL classes (self and later "
+        "ones included: cycles of length 1-3, classes on / reaching / not reaching a cycle) and seeded hierarchies of "
+        "2-7 classes with 1-3 extra bases pointing backwards (mostly at a descendant), in one module or over a "
+        "package (imports, aliases, re-export through __init__); plus seeded loading sessions (30% of them with "
+        "backward bases): the hierarchy spread over 2-3 top-level packages/modules "
         "(bases through from/aliased/module-attribute/relative imports and re-exports by a third unit), loaded or "
         "visited into one shared collection in a random order (all orders occur) by 1-3 loaders with default or no "
         "extensions, accessors read and resolve_aliases() called at random places between the loads, every class "
@@ -36,13 +46,16 @@ LEVEL_TEXT = ("Every hierarchy of the stated bounded space is built by CPython's
               "compared class by class (MRO, rejected/cyclic hierarchies, definer of every inherited name, alias "
               "presentation); a post-condition on c3linear_merge is evaluated on every merge. Exhaustive for <=5 (quick) / "
               "<=6 (thorough) classes with <=3 bases in one module; sampled across modules and across multi-step loading "
-              "sessions (the answer of an accessor must not depend on what was loaded or asked before).")
+              "sessions (the answer of an accessor must not depend on what was loaded or asked before). Classes that "
+              "statically lie on or reach an inheritance cycle (decided by a graph analysis of the generated hierarchy, "
+              "not by Griffe) must be reported by ValueError within a step budget and expose only declared members.")
 LEVEL_NOTE = "trusted: CPython 3.12 type()/__mro__ as reference; the renderer of class statements; bounds N<=6, <=3 bases"
 TECHNIQUE = "runtime monitoring: differential oracle against CPython type()/__mro__ + contract on c3linear_merge + step budget"
 REQUIRED_COUNTERS = ["mro_compared", "c3_contract_evals", "inherited_lookups_compared", "rejected_by_both",
                      "cycles_reported", "session_final_classes_judged", "session_classes_judged_mid_session",
                      "session_final_classes_asked_before_bases_loaded", "session_reads_between_loads",
-                     "session_cpython_import_agrees"]
+                     "session_cpython_import_agrees", "classes_on_a_cycle_judged",
+                     "classes_reaching_a_cycle_from_outside_judged", "session_cyclic_classes_judged"]
 EXHAUSTIVE = {"quick": True, "thorough": True}  # quick: exhaustive for N<=5 (+ a sample of N=6); thorough: N<=6
 ASSUMPTIONS = ["CPython 3.12 type() is the reference semantics for C3 linearisation and attribute lookup",
                "exhaustive over the stated bounded space only (N classes, <=3 bases); cross-module, cycle and "
@@ -78,6 +91,11 @@ def shards(tier: str, seed: int) -> list[dict]:
     for p in range(8 if tier == "quick" else 16):
         out.append({"kind": "multi", "count": nmulti, "maxn": 6})
     out.append({"kind": "cycles"})
+    # every base graph of <= 3 classes with bases among *all* classes (2 + 25 + 4096 graphs, most of them cyclic),
+    # and samples of larger hierarchies with bases pointing backwards, in one module or over a package
+    out += [{"kind": "cyclic_exhaustive", "maxn": 3, "part": p, "parts": 4} for p in range(4)]
+    for p in range(4 if tier == "quick" else 16):
+        out.append({"kind": "cyclic_sampled", "count": 200 if tier == "quick" else 2000, "maxn": 7})
     for p in range(8 if tier == "quick" else 16):
         out.append({"kind": "sessions", "count": 160 if tier == "quick" else 2500, "maxn": 6})
     if tier == "quick":
@@ -164,8 +182,131 @@ def cpython_reference(hier, members):  # noqa: ANN001
     return mros, definers
 
 
+CYCLE = "cycle"     # expectation marker: the class statically reaches an inheritance cycle
+
+
+def graph_analysis(graph):  # noqa: ANN001, ANN201
+    """Independent analysis of a base graph (class -> ordered bases, any direction): per class whether it lies on
+    a cycle, whether it reaches one, and the number of base hops to the nearest class lying on a cycle."""
+    n = len(graph)
+    reach = []
+    for i in range(n):
+        seen: set[int] = set()
+        todo = list(graph[i])
+        while todo:
+            j = todo.pop()
+            if j not in seen:
+                seen.add(j)
+                todo.extend(graph[j])
+        reach.append(seen)
+    on_cycle = [i in reach[i] for i in range(n)]
+    reaches = [on_cycle[i] or any(on_cycle[j] for j in reach[i]) for i in range(n)]
+    hops = []
+    for i in range(n):
+        dist, frontier, seen = 0, {i}, {i}
+        while frontier and not any(on_cycle[j] for j in frontier):
+            frontier = {b for j in frontier for b in graph[j]} - seen
+            seen |= frontier
+            dist += 1
+        hops.append(dist if frontier else None)
+    return on_cycle, reaches, hops
+
+
+def graph_reference(graph, members):  # noqa: ANN001, ANN201
+    """Like cpython_reference, for bases in any direction: classes reaching a cycle are marked CYCLE; the others
+    (their ancestry is acyclic) are built by CPython's type() in dependency order."""
+    _on, reaches, _hops = graph_analysis(graph)
+    n = len(graph)
+    classes: dict[int, type | None] = {}
+
+    def build(i: int) -> None:
+        if i in classes:
+            return
+        for b in graph[i]:
+            build(b)
+        if any(classes[b] is None for b in graph[i]):
+            classes[i] = None
+            return
+        ns = {name: (lambda self: None) if kind == "func" else i for name, kind in members[i].items()}
+        try:
+            classes[i] = type(f"C{i}", tuple(classes[b] for b in graph[i]), ns)
+        except TypeError:
+            classes[i] = None
+
+    for i in range(n):
+        if not reaches[i]:
+            build(i)
+    index = {cls: i for i, cls in classes.items() if cls is not None}
+    mros: list = []
+    definers: list = []
+    for i in range(n):
+        if reaches[i]:
+            mros.append(CYCLE)
+            definers.append(None)
+            continue
+        cls = classes[i]
+        if cls is None:
+            mros.append(None)
+            definers.append(None)
+            continue
+        mros.append([index[c] for c in cls.__mro__[1:-1]])
+        d = {}
+        for name in NAMES:
+            for c in cls.__mro__[:-1]:
+                if name in vars(c):
+                    d[name] = index[c]
+                    break
+        definers.append(d)
+    return mros, definers
+
+
+def judge_cyclic(rec, i, cls, members, steps):  # noqa: ANN001, ANN201, C901, PLR0911
+    """Class number ``i`` statically reaches an inheritance cycle: it must be *reported* as uncomputable
+    (ValueError from mro(), nothing else, within the step budget) and behave as a class without inherited members."""
+    steps.begin(200_000)
+    try:
+        try:
+            got = cls.mro()
+        except ValueError:
+            got = None
+        inherited = cls.inherited_members
+        allm = cls.all_members
+        items = {}
+        for name in NAMES:
+            try:
+                items[name] = cls[name]
+            except KeyError:
+                items[name] = None
+        params = list(cls.parameters)
+    finally:
+        n, depth = steps.end()
+        rec.maximum("max_steps_per_class", n)
+        rec.maximum("max_stack_depth", depth)
+    rec.count("mro_compared")
+    rec.count("cycles_reported" if got is None else "cycles_missed")
+    if got is not None:
+        return (f"C{i}: the hierarchy reaches an inheritance cycle but mro() returned", [c.path for c in got], "ValueError")
+    if inherited:
+        return (f"C{i}: reaches an inheritance cycle but has inherited members", sorted(inherited), {})
+    own = members[i]
+    if set(allm) != set(own) or any(allm[name] is not cls.members[name] for name in own):
+        return (f"C{i}: reaches an inheritance cycle: all_members must be exactly the declared members", sorted(allm),
+                sorted(own))
+    for name in NAMES:
+        if name in own and items[name] is not cls.members[name]:
+            return (f"C{i}[{name!r}] is not the declared member (class reaches an inheritance cycle)", repr(items[name]),
+                    repr(cls.members[name]))
+        if name not in own and items[name] is not None:
+            return (f"C{i}[{name!r}] found although nothing can be inherited through a cycle", repr(items[name]), "KeyError")
+    if params:
+        return (f"C{i}.parameters non-empty without a declared or inheritable __init__", repr(params), [])
+    return None
+
+
 def judge_one(rec, i, cls, mros, definers, members, path_of, steps):  # noqa: ANN001, C901, PLR0911, PLR0912
     """Compare griffe's view of class number ``i`` with CPython's. Returns a failure tuple or None."""
+    if mros[i] == CYCLE:
+        return judge_cyclic(rec, i, cls, members, steps)
     steps.begin(200_000)
     try:
         try:
@@ -227,7 +368,7 @@ def judge_one(rec, i, cls, mros, definers, members, path_of, steps):  # noqa: AN
 
 def judge(rec, case, hier, members, get_class, path_of, steps):  # noqa: ANN001
     """Compare griffe's view of every class with CPython's. Returns a failure tuple or None."""
-    mros, definers = cpython_reference(hier, members)
+    mros, definers = graph_reference(hier, members)
     for i in range(len(hier)):
         res = judge_one(rec, i, get_class(i), mros, definers, members, path_of, steps)
         if res:
@@ -235,8 +376,99 @@ def judge(rec, case, hier, members, get_class, path_of, steps):  # noqa: ANN001
     return None
 
 
-def run_single(rec, hier, members, steps):  # noqa: ANN001
-    src = "".join(render_class(i, [f"C{b}" for b in bases], members[i]) for i, bases in enumerate(hier))
+def graph_choices(n: int) -> list[tuple[int, ...]]:
+    """Ordered lists of <= 3 distinct bases among *all* n classes (the class itself and later ones included)."""
+    out: list[tuple[int, ...]] = []
+    for k in range(min(3, n) + 1):
+        out.extend(itertools.permutations(range(n), k))
+    return out
+
+
+def enumerate_graphs(n: int):  # noqa: ANN201
+    return itertools.product(*[graph_choices(n)] * n)
+
+
+def add_back_edges(rng: random.Random, hier, k: int):  # noqa: ANN001, ANN201
+    """Turn a hierarchy (bases among earlier classes) into a general base graph: k extra bases pointing at the class
+    itself or at a later class - mostly at a descendant (closes a cycle of any length), sometimes at an unrelated one."""
+    graph = [list(b) for b in hier]
+    n = len(graph)
+    for _ in range(k):
+        u = rng.randrange(n)
+        descendants = [v for v in range(u, n) if v == u or u in _reachable(graph, v)]
+        v = rng.choice(descendants) if rng.random() < 0.65 else rng.randrange(u, n)
+        if v in graph[u]:
+            continue
+        if len(graph[u]) >= 3:
+            graph[u][rng.randrange(3)] = v
+        else:
+            graph[u].insert(rng.randrange(len(graph[u]) + 1), v)
+    return tuple(tuple(b) for b in graph)
+
+
+def _reachable(graph, i: int) -> set[int]:  # noqa: ANN001
+    seen: set[int] = set()
+    todo = list(graph[i])
+    while todo:
+        j = todo.pop()
+        if j not in seen:
+            seen.add(j)
+            todo.extend(graph[j])
+    return seen
+
+
+def text_order(rng: random.Random, graph) -> list[int]:  # noqa: ANN001
+    """Order of the class statements: classes with an acyclic ancestry come after all their ancestors (that part of
+    the text is valid Python); the classes reaching a cycle (no valid order exists) are put at random places."""
+    _on, reaches, _hops = graph_analysis(graph)
+    order: list[int] = []
+
+    def visit(i: int) -> None:
+        if i not in order:
+            for b in graph[i]:
+                visit(b)
+            order.append(i)
+
+    for i in range(len(graph)):
+        if not reaches[i]:
+            visit(i)
+    for i in range(len(graph)):
+        if reaches[i]:
+            order.insert(rng.randrange(len(order) + 1), i)
+    return order
+
+
+def note_cycles(rec, graph, analysis=None) -> None:  # noqa: ANN001
+    """Evidence about the positions (relative to a cycle) of the classes of a case that was judged completely."""
+    on_cycle, reaches, hops = analysis or graph_analysis(graph)
+    if not any(reaches):
+        return
+    rec.count("cyclic_hierarchies_judged")
+    for i, bases in enumerate(graph):
+        if on_cycle[i]:
+            rec.count("classes_on_a_cycle_judged")
+            length = 1 if i in bases else 1 + min(_dist(graph, b, i) for b in bases if i == b or i in _reachable(graph, b))
+            rec.maximum("max_cycle_length", length)
+        elif reaches[i]:
+            rec.count("classes_reaching_a_cycle_from_outside_judged")
+            rec.maximum("max_hops_to_cycle", hops[i])
+            if sum(1 for b in bases if reaches[b]) < len(bases):
+                rec.count("classes_reaching_a_cycle_through_some_bases_only")
+    if any(m is None for m in graph_reference(graph, [{} for _ in graph])[0]):
+        rec.count("cyclic_hierarchies_with_c3_inconsistent_part")
+
+
+def _dist(graph, src: int, dst: int) -> int:  # noqa: ANN001
+    dist, frontier, seen = 0, {src}, {src}
+    while dst not in frontier:
+        frontier = {b for j in frontier for b in graph[j]} - seen
+        seen |= frontier
+        dist += 1
+    return dist
+
+
+def run_single(rec, hier, members, steps, order=None):  # noqa: ANN001
+    src = "".join(render_class(i, [f"C{b}" for b in hier[i]], members[i]) for i in order or range(len(hier)))
     case = {"kind": "single-module", "source": src}
     nontrivial = any(len(b) >= 2 for b in hier)
     try:
@@ -249,6 +481,7 @@ def run_single(rec, hier, members, steps):  # noqa: ANN001
     if res:
         rec.fail(case, res[0], observed=res[1], expected=res[2], nontrivial=nontrivial)
     else:
+        note_cycles(rec, hier)
         rec.ok(case, nontrivial=nontrivial, dig=None)
 
 
@@ -256,13 +489,20 @@ def run_multi(rec, rng, steps, maxn):  # noqa: ANN001
     """Same hierarchy spread over modules of a package; bases reached through imports."""
     n = rng.randint(3, maxn)
     hier = [rng.choice(base_choices(i)) for i in range(n)]
-    members = members_for(rng, n)
+    run_package(rec, rng, steps, hier, members_for(rng, n))
+
+
+def run_package(rec, rng, steps, hier, members, order=None):  # noqa: ANN001, C901
+    """A base graph spread over the modules of one package; bases reached through imports and a re-export."""
+    n = len(hier)
     nmods = rng.randint(2, 3)
     home = [rng.randrange(nmods) for _ in range(n)]
     modnames = ["a", "b", "c"][:nmods]
     bodies = {m: [] for m in modnames}
     imports = {m: [] for m in modnames}
-    for i, bases in enumerate(hier):
+    reexports: list[str] = []
+    for i in order or range(n):
+        bases = hier[i]
         m = modnames[home[i]]
         exprs = []
         for b in bases:
@@ -273,10 +513,14 @@ def run_multi(rec, rng, steps, maxn):  # noqa: ANN001
             # a module may only import from modules that define nothing it is imported by *before* use:
             # statements run top-down in CPython, but griffe is static, so any form is fine for it; the
             # reference does not import these files (it uses type()), so import cycles are harmless here.
-            form = rng.choice(["from", "from_as", "import", "import_as", "rel"])
+            form = rng.choice(["from", "from_as", "import", "import_as", "rel", "reexport"])
             if form == "from":
                 imports[m].append(f"from pk.{bm} import C{b}")
                 exprs.append(f"C{b}")
+            elif form == "reexport":
+                reexports.append(f"from pk.{bm} import C{b} as E{b}")
+                imports[m].append(f"from pk import E{b}")
+                exprs.append(f"E{b}")
             elif form == "from_as":
                 imports[m].append(f"from pk.{bm} import C{b} as K{b}")
                 exprs.append(f"K{b}")
@@ -290,7 +534,7 @@ def run_multi(rec, rng, steps, maxn):  # noqa: ANN001
                 imports[m].append(f"from .{bm} import C{b} as R{b}")
                 exprs.append(f"R{b}")
         bodies[m].append(render_class(i, exprs, members[i]))
-    files = {"pk/__init__.py": ""}
+    files = {"pk/__init__.py": "".join(line + "\n" for line in dict.fromkeys(reexports))}
     for m in modnames:
         files[f"pk/{m}.py"] = "\n".join(dict.fromkeys(imports[m])) + "\n" + "".join(bodies[m])
     case = {"kind": "multi-module", "files": files}
@@ -307,7 +551,22 @@ def run_multi(rec, rng, steps, maxn):  # noqa: ANN001
     if res:
         rec.fail(case, res[0], observed=res[1], expected=res[2], nontrivial=nontrivial)
     else:
+        note_cycles(rec, hier)
         rec.ok(case, nontrivial=nontrivial)
+
+
+def run_cyclic_sample(rec, rng, steps, maxn):  # noqa: ANN001
+    """A hierarchy with 1-3 extra bases pointing 'backwards' (cycles of any length, anywhere), in one module or over
+    the modules of a package."""
+    n = rng.randint(2, maxn)
+    graph = add_back_edges(rng, [rng.choice(base_choices(i)) for i in range(n)], rng.choice([1, 1, 2, 3]))
+    members = members_for(rng, n)
+    order = text_order(rng, graph)
+    rec.count("graphs_with_backward_bases")
+    if rng.random() < 0.4:
+        run_single(rec, graph, members, steps, order)
+    else:
+        run_package(rec, rng, steps, graph, members, order)
 
 
 # ------------------------------------------------------------------------------------------
@@ -344,11 +603,14 @@ def gen_session(rng: random.Random, maxn: int) -> dict:  # noqa: C901, PLR0912, 
         home = [units[p] for p in pos]
         if any(_top(home[b]) != _top(home[i]) for i, bases in enumerate(hier) for b in bases):
             break
+    if rng.random() < 0.3:                        # statically cyclic hierarchies, or merely bases defined "later"
+        hier = add_back_edges(rng, hier, rng.randint(1, 2))
+    backward = any(b >= i for i, bases in enumerate(hier) for b in bases)
     imports: dict[str, list[str]] = {u: [] for u in units}
     bodies: dict[str, list[str]] = {u: [] for u in units}
     bound: dict[str, dict[str, str]] = {u: {} for u in units}   # unit -> name -> where the name is imported from
     chosen: dict[tuple[str, int], tuple[str, set[str]]] = {}    # (unit, base) -> (expression, tops it goes through)
-    needs: list[list[str]] = []
+    direct: list[set[str]] = [set() for _ in range(n)]          # tops a class's own statement goes through
     aliases: list[dict] = []                      # {"cls": b, "path": dotted path of an alias of C<b>, "needs": tops}
 
     def bind(unit: str, name: str, source: str, stmt: str, b: int, through: set[str]) -> bool:
@@ -356,16 +618,17 @@ def gen_session(rng: random.Random, maxn: int) -> dict:  # noqa: C901, PLR0912, 
             return False
         if stmt not in imports[unit]:
             imports[unit].append(stmt)
-            aliases.append({"cls": b, "path": f"{unit}.{name}", "needs": sorted({_top(unit)} | through | set(needs[b]))})
+            aliases.append({"cls": b, "path": f"{unit}.{name}", "needs": {_top(unit)} | through})
         return True
 
-    for i, bases in enumerate(hier):
+    for i in (text_order(rng, hier) if backward else range(n)):
+        bases = hier[i]
         hi = home[i]
-        need = {_top(hi)}
+        need = direct[i]
+        need.add(_top(hi))
         exprs = []
         for b in bases:
             hb = home[b]
-            need |= set(needs[b])
             if hb == hi:
                 exprs.append(f"C{b}")
                 continue
@@ -423,8 +686,11 @@ def gen_session(rng: random.Random, maxn: int) -> dict:  # noqa: C901, PLR0912, 
             chosen[hi, b] = (expr, through)
             need |= through
             exprs.append(expr)
-        needs.append(sorted(need))
         bodies[hi].append(render_class(i, exprs, members[i]))
+    # everything a class depends on: its own statement's route and those of all the classes it reaches
+    needs = [sorted(set().union(direct[i], *(direct[j] for j in _reachable(hier, i)))) for i in range(n)]
+    for a in aliases:
+        a["needs"] = sorted(a["needs"] | set(needs[a["cls"]]))
     split_roots = mode == "load" and rng.random() < 0.4
     roots = [f"s{k}" for k in range(len(tops))] if split_roots else ["."]
     files = {}
@@ -586,9 +852,17 @@ def exec_session(rec, case: dict, steps):  # noqa: ANN001, ANN201, C901, PLR0912
     hier = tuple(tuple(b) for b in case["hier"])
     members, home, needs = case["members"], case["home"], [set(x) for x in case["needs"]]
     n = len(hier)
-    mros, definers = cpython_reference(hier, members)
-    imported, why = import_reference(case)
-    if imported is None:
+    mros, definers = graph_reference(hier, members)
+    analysis = graph_analysis(hier)
+    if any(b >= i for i, bases in enumerate(hier) for b in bases):
+        # bases defined "later" (among them: inheritance cycles): there is no order in which CPython could import this
+        imported, why = "skipped", None
+        rec.count("session_cases_with_backward_bases")
+    else:
+        imported, why = import_reference(case)
+    if imported == "skipped":
+        pass
+    elif imported is None:
         # importing a submodule runs the parent __init__ first, which can close an import cycle at run time
         # (ImportError / AttributeError on a partially initialised module): then type() alone is the reference
         circular = why in ("ImportError", "AttributeError")
@@ -666,6 +940,9 @@ def exec_session(rec, case: dict, steps):  # noqa: ANN001, ANN201, C901, PLR0912
             rec.count("session_final_classes_judged")
             if i in asked_early:
                 rec.count("session_final_classes_asked_before_bases_loaded")
+            if mros[i] == CYCLE:
+                rec.count("session_cyclic_classes_judged")
+    note_cycles(rec, hier, analysis)
     return None
 
 
@@ -684,25 +961,38 @@ def run_session(rec, case: dict, steps) -> None:  # noqa: ANN001
         rec.ok(case, nontrivial=nontrivial, tags=("session",))
 
 
+# Hand-written textual cycles; "cyclic" lists (by reading the text) the classes that lie on or reach a cycle.
 CYCLES = [
-    {"m.py": "class A(B):\n    def f(self): ...\nclass B(A):\n    def g(self): ...\n"},
-    {"m.py": "class A(A):\n    x = 1\n"},
-    {"m.py": "class A(C): ...\nclass B(A): ...\nclass C(B):\n    def f(self): ...\n"},
-    {"m.py": "class O: ...\nclass A(O, B): ...\nclass B(O, A): ...\n"},
-    {"pk/__init__.py": "", "pk/a.py": "from pk.b import B\nclass A(B):\n    def f(self): ...\n",
-     "pk/b.py": "from pk.a import A\nclass B(A):\n    def g(self): ...\n"},
-    {"pk/__init__.py": "", "pk/a.py": "from .b import B as X\nclass A(X): ...\n",
-     "pk/b.py": "from .c import C\nclass B(C): ...\n", "pk/c.py": "import pk.a\nclass C(pk.a.A): ...\n"},
-    {"pk/__init__.py": "from pk.a import A\nclass Top(A): ...\n", "pk/a.py": "from pk import Top\nclass A(Top): ...\n"},
+    {"files": {"m.py": "class A(B):\n    def f(self): ...\nclass B(A):\n    def g(self): ...\n"}, "cyclic": ["m.A", "m.B"]},
+    {"files": {"m.py": "class A(A):\n    x = 1\n"}, "cyclic": ["m.A"]},
+    {"files": {"m.py": "class A(C): ...\nclass B(A): ...\nclass C(B):\n    def f(self): ...\n"},
+     "cyclic": ["m.A", "m.B", "m.C"]},
+    {"files": {"m.py": "class O: ...\nclass A(O, B): ...\nclass B(O, A): ...\n"}, "cyclic": ["m.A", "m.B"]},
+    {"files": {"pk/__init__.py": "", "pk/a.py": "from pk.b import B\nclass A(B):\n    def f(self): ...\n",
+               "pk/b.py": "from pk.a import A\nclass B(A):\n    def g(self): ...\n"}, "cyclic": ["pk.a.A", "pk.b.B"]},
+    {"files": {"pk/__init__.py": "", "pk/a.py": "from .b import B as X\nclass A(X): ...\n",
+               "pk/b.py": "from .c import C\nclass B(C): ...\n", "pk/c.py": "import pk.a\nclass C(pk.a.A): ...\n"},
+     "cyclic": ["pk.a.A", "pk.b.B", "pk.c.C"]},
+    {"files": {"pk/__init__.py": "from pk.a import A\nclass Top(A): ...\n", "pk/a.py": "from pk import Top\nclass A(Top): ...\n"},
+     "cyclic": ["pk.Top", "pk.a.A"]},
     # a class whose base is an alias cycle (never reaches a class): base is simply unresolvable
-    {"pk/__init__.py": "", "pk/a.py": "from pk.b import Z\nclass A(Z):\n    def f(self): ...\n",
-     "pk/b.py": "from pk.a import Z\n"},
+    {"files": {"pk/__init__.py": "", "pk/a.py": "from pk.b import Z\nclass A(Z):\n    def f(self): ...\n",
+               "pk/b.py": "from pk.a import Z\n"}, "cyclic": []},
+    # classes that only *reach* a cycle: through one hop, two hops, the first / the last of several bases
+    {"files": {"m.py": "class A(B):\n    def f(self): ...\nclass B(A): ...\nclass C(A):\n    def g(self): ...\n"
+                       "class E:\n    def f(self): ...\nclass D(C, E): ...\nclass F(E, D): ...\nclass G(E): ...\n"},
+     "cyclic": ["m.A", "m.B", "m.C", "m.D", "m.F"]},
+    {"files": {"pk/__init__.py": "from pk.a import Loop as L\nclass Far(L):\n    x = 1\n",
+               "pk/a.py": "class Loop(Loop):\n    def f(self): ...\n",
+               "pk/b.py": "import pk\nclass Farther(pk.Far):\n    def g(self): ...\nclass Free:\n    x = 2\n"},
+     "cyclic": ["pk.Far", "pk.a.Loop", "pk.b.Farther"]},
 ]
 
 
-def run_cycles(rec, steps):  # noqa: ANN001
-    for files in CYCLES:
-        case = {"kind": "textual-cycle", "files": files}
+def run_cycles(rec, steps):  # noqa: ANN001, C901
+    for entry in CYCLES:
+        files = entry["files"]
+        case = {"kind": "textual-cycle", **entry}
         top = "pk" if any(k.startswith("pk/") for k in files) else "m"
         try:
             with case_watchdog(60):
@@ -718,18 +1008,26 @@ def run_cycles(rec, steps):  # noqa: ANN001
                         except ValueError:
                             raised = True
                         inh = cls.inherited_members
-                        _ = cls.all_members
+                        allm = cls.all_members
                     finally:
                         n, depth = steps.end()
                         rec.maximum("max_steps_per_class", n)
-                    in_cycle = _in_textual_cycle(cls)
-                    if in_cycle:
+                    if "cyclic" in entry:
+                        cyclic = cls.path in entry["cyclic"]
+                        acyclic = not cyclic
+                    else:   # replay files written before the expectation was part of the input
+                        cyclic = _in_textual_cycle(cls)
+                        acyclic = not cyclic and not any(_in_textual_cycle(b) for b in _bases_closure(cls))
+                    if cyclic:
                         rec.count("cycles_reported" if raised else "cycles_missed")
                         if not raised:
                             bad = (f"{cls.path}: cyclic hierarchy but mro() returned", [c.path for c in order], "ValueError")
                         elif inh:
                             bad = (f"{cls.path}: cyclic hierarchy but inherited members", sorted(inh), {})
-                    elif raised and not any(_in_textual_cycle(b) for b in _bases_closure(cls)):
+                        elif set(allm) != set(cls.members):
+                            bad = (f"{cls.path}: cyclic hierarchy: all_members differ from members", sorted(allm),
+                                   sorted(cls.members))
+                    elif raised and acyclic:
                         bad = (f"{cls.path}: ValueError but no cycle", "ValueError", "an MRO")
         except (Exception, mon.StepBudgetExceeded) as exc:  # noqa: BLE001
             rec.fail_exc(case, "exception / step budget on cyclic hierarchy", exc)
@@ -782,6 +1080,19 @@ def run_shard(spec: dict, rec) -> None:  # noqa: ANN001
             run_multi(rec, rng, steps, spec["maxn"])
     elif spec["kind"] == "cycles":
         run_cycles(rec, steps)
+    elif spec["kind"] == "cyclic_exhaustive":
+        idx = 0
+        for n in range(1, spec["maxn"] + 1):
+            for graph in enumerate_graphs(n):
+                idx += 1
+                if idx % spec["parts"] != spec["part"]:
+                    continue
+                mrng = random.Random(idx * 7919 + spec["seed"] // 100003)
+                run_single(rec, graph, members_for(mrng, n), steps, text_order(mrng, graph))
+                rec.count("base_graphs_enumerated")
+    elif spec["kind"] == "cyclic_sampled":
+        for _ in range(spec["count"]):
+            run_cyclic_sample(rec, rng, steps, spec["maxn"])
     elif spec["kind"] == "sessions":
         for _ in range(spec["count"]):
             run_session(rec, gen_session(rng, spec["maxn"]), steps)
@@ -797,7 +1108,7 @@ def run_replay(inp: dict, rec) -> None:  # noqa: ANN001
     install_contract(rec)
     steps = mon.Steps()
     if inp.get("kind") == "textual-cycle":
-        CYCLES[:] = [inp["files"]]
+        CYCLES[:] = [{k: v for k, v in inp.items() if k in ("files", "cyclic")}]
         run_cycles(rec, steps)
         return
     if inp.get("kind") == "session":
@@ -826,7 +1137,6 @@ def run_replay(inp: dict, rec) -> None:  # noqa: ANN001
     hier = tuple(tuple(idx["C" + "".join(ch for ch in b.split(".")[-1] if ch.isdigit())] for b in bases)
                  for _n, _m, bases, _mm in order)
     members = [mm for *_x, mm in order]
-    pkg, _ = load_files(files, top)
     case = dict(inp)
 
     def get(i):  # noqa: ANN001
@@ -834,7 +1144,12 @@ def run_replay(inp: dict, rec) -> None:  # noqa: ANN001
         obj = pkg if modpath == top else pkg[modpath.split(".", 1)[1]]
         return obj.members[name]
 
-    res = judge(rec, case, hier, members, get, lambda j: f"{order[j][1]}.{order[j][0]}", steps)
+    try:
+        pkg, _ = load_files(files, top)
+        res = judge(rec, case, hier, members, get, lambda j: f"{order[j][1]}.{order[j][0]}", steps)
+    except (Exception, mon.StepBudgetExceeded) as exc:  # noqa: BLE001
+        rec.fail_exc(case, "exception while computing MRO / inherited members", exc)
+        return
     if res:
         rec.fail(case, res[0], observed=res[1], expected=res[2])
     else:
